@@ -1071,7 +1071,7 @@ fn tie(n: usize, seed: u64) {
         if args.iter().any(has_map_deep) {
             continue;
         }
-        if name == "CCouple" && std::mem::discriminant(&args[0]) != std::mem::discriminant(&args[1]) {
+        if name == "CCouple" && (std::mem::discriminant(&args[0]) != std::mem::discriminant(&args[1]) || args[0].shape != args[1].shape) {
             continue;
         }
         // stack order: last pushed = top
